@@ -254,8 +254,14 @@ func init() {
 			combos = append(combos, ms{40, "dealloc"}, ms{48, "dealloc"}, ms{128, "dealloc"}, ms{128, "t1-btree"}, ms{128, "t1-hash"})
 			for _, cb := range combos {
 				p := c09Params{MemKB: cb.mem, Seed: cb.seed}
-				core.BFS(c, core.SeqConfig{Name: fmt.Sprintf("c09/%s/mem%d", cb.seed, cb.mem), Params: p,
-					Fresh: func() core.Instance { return NewWorld(c09Cfg(p)) }, MaxDepth: depth, SplitDepth: 1})
+				sc := core.SeqConfig{Name: fmt.Sprintf("c09/%s/mem%d", cb.seed, cb.mem), Params: p,
+					Fresh: func() core.Instance { return NewWorld(c09Cfg(p)) }, MaxDepth: depth, SplitDepth: 1}
+				if cb.seed == "dealloc" && cb.mem < 64 {
+					// a second search from a state four bulk statements further on: index nodes emptied, their
+					// ids reused, emptied again - some of them never written to the db file
+					sc.Seeds = [][]string{nil, {"sql:0:0", "sql:0:1", "sql:0:3", "sql:0:1"}}
+				}
+				core.BFS(c, sc)
 			}
 		},
 		Replay: func(raw json.RawMessage) (string, bool) {
